@@ -15,12 +15,12 @@ import subprocess
 import vlib
 from props import lifecycle_common as lc
 
-C03_KINDS = {"ResultDiffers", "BufNotEmpty", "RetNotBuf", "InfoIdentity", "Panic", "Timeout"}
+C03_KINDS = {"ResultDiffers", "BufNotEmpty", "RetNotBuf", "InfoIdentity", "StaleContext", "SkipFlagLeft", "Panic", "Timeout"}
 
 
 def run(ctx):
     thorough = ctx.tier == "thorough"
-    design = lc.design(ctx, ["noResetBuf", "noResetScratch", "noInPlace"], coverage=thorough)
+    design = lc.design(ctx, ["noResetBuf", "noResetScratch", "noInPlace", "noRebuildImports"], coverage=thorough)
     hists = lc.export_histories(ctx, 100 if thorough else 16, 40, ctx.seed)
     hfile = ctx.path("hists.json")
     json.dump(hists, open(hfile, "w"))
